@@ -110,7 +110,7 @@ def run_fixed_point(inst):
             res["counters"][f"q_{label}_{r.status}"] = res["counters"].get(f"q_{label}_{r.status}", 0) + 1
             if r.status == "unsat":
                 continue
-            if r.status == "sat" and r.model:
+            if r.has_witness:
                 obs = real_fixed_point(inst, r.model)[key]
                 i0, i1 = obs
                 if label == "defined": viol = not (math.isfinite(i0) and math.isfinite(i1))
